@@ -73,6 +73,21 @@ SCENARIOS = [
 ]
 
 
+def _opclass(op):
+    """System-call family of an intercepted operation (for persistent faults)."""
+    if op in ("open:r",):
+        return "open-read"
+    if op in ("open:w", "open:a", "open:rw", "create", "osopen"):
+        return "open-write"
+    if op in ("f.write", "f.truncate", "truncate"):
+        return "write"
+    if op in ("rename", "replace", "link", "symlink"):
+        return "rename"
+    if op in ("remove", "unlink", "rmdir"):
+        return "remove"
+    return op
+
+
 class SeqContext(interpose.Context):
     def __init__(self, root, classify):
         super().__init__(root, classify)
@@ -190,9 +205,12 @@ class Enumerator:
             if n == k:
                 fired.append((op, token))
                 if mode == "persistent":
-                    stuck.append(ctx.cur_paths[-1])
+                    stuck.append((_opclass(op), ctx.cur_paths[-1]))
                 raise OSError(err, os.strerror(err) + " (injected)")
-            if stuck and any(p in stuck for p in ctx.cur_paths):
+            # persistent: THAT system call keeps failing for THAT destination until the call
+            # returns (reads keep failing, or writes, or renames onto it ...); other kinds of
+            # operation on the same path still work - otherwise no roll-back could ever succeed
+            if stuck and any((_opclass(op), p) in stuck for p in ctx.cur_paths):
                 raise OSError(err, os.strerror(err) + " (injected, persistent)")
         ctx.before = before
         # the call runs in its own thread under a watchdog: a fault that makes the call wait
